@@ -705,7 +705,7 @@ pub fn run(a: &Args) {
                         c.sender,
                         if c.principal { "(principal)" } else { "" },
                         if c.ok { "ok".to_string() } else { "err".to_string() },
-                        c.err.as_ref().map(|e| format!("  [{}]", e.chars().take(120).collect::<String>())).unwrap_or_default()
+                        c.err.as_ref().map(|e| format!("  [{}]", e.replace(char::from(10), " ").chars().rev().take(110).collect::<String>().chars().rev().collect::<String>())).unwrap_or_default()
                     );
                 }
                 cx.cases.push(o.coq);
@@ -726,6 +726,7 @@ pub fn run(a: &Args) {
     // ---- A. the table
     let rows = all_rows(thorough);
     let mut nrows = 0;
+    let mut handover_obs: BTreeSet<&'static str> = BTreeSet::new();
     for (ck, st, kind) in &rows {
         let full = full_sweep(*ck, st, kind, thorough);
         match run_row(&mut cx, *ck, st, kind, full) {
@@ -735,7 +736,12 @@ pub fn run(a: &Args) {
                     cx.rep.samples.push(json!({"contract": ck.name(), "state": st, "message": kind, "reserved_to": format!("{:?}", o.reserved),
                         "calls": o.calls.iter().map(|c| json!({"role": c.role, "sender": c.sender, "principal": c.principal, "ok": c.ok})).collect::<Vec<_>>()}));
                 }
-                let _ = o.exercised;
+                if let (CK::Minter(mk), "creator-handover", Some(P::MinterAdmin)) = (*ck, st.as_str(), o.reserved) {
+                    let ok_of = |role: &str| o.calls.iter().find(|c| c.role == role).map(|c| c.ok);
+                    if o.exercised && ok_of("creator") == Some(true) && ok_of("new-creator") == Some(false) {
+                        handover_obs.insert(mk.name());
+                    }
+                }
                 cx.cases.push(o.coq);
             }
             Ok(None) => {}
@@ -778,6 +784,18 @@ pub fn run(a: &Args) {
         cx.exercised.len(),
         un.len(),
         un
+    ));
+    cx.rep.notes.push(
+        "open by design, not reported (DESIGN §7 C05): IncreaseMemberLimit on the four list whitelists has no admin check (anyone may pay to raise capacity); \
+         Mint, Purge and Shuffle on minters; token-merge ReceiveNft (gated on the sending collection, not on a role); ApproveAll/RevokeAll (the sender's own tokens); \
+         CreateMinter on factories; sg721 Extension panics (todo!/unreachable!) for every sender"
+            .into(),
+    );
+    cx.rep.notes.push(format!(
+        "observation (not a violation: the sentence reserves these to the minter admin): after the collection's creator is handed over with \
+         UpdateCollectionInfo{{creator}}, the admin of a vending / open-edition / token-merge minter stays the account it was created with - the old \
+         creator's reserved calls still succeed and the new creator's are refused (seen on {:?}); only the base minter follows the collection's current creator",
+        handover_obs
     ));
     cx.rep.distinct_nontrivial = cx.nontrivial.len() as u64;
     cx.rep.rule = "distinct (contract, state, message, role) calls that succeeded or were rejected for a reason other than parsing / attached funds".into();
